@@ -26,6 +26,25 @@ type thing struct {
 
 type featKey struct{}
 
+// what Config.Features would answer at this moment (the "environment" of a connection: it can
+// change while the connection lives)
+type featBox struct {
+	mu  sync.Mutex
+	now graphql.FeatureSet
+}
+
+func (b *featBox) get() graphql.FeatureSet {
+	b.mu.Lock()
+	defer b.mu.Unlock()
+	return b.now
+}
+
+func (b *featBox) set(f graphql.FeatureSet) {
+	b.mu.Lock()
+	b.now = f
+	b.mu.Unlock()
+}
+
 type memStorage struct {
 	mu sync.Mutex
 	m  map[string]string
@@ -45,7 +64,7 @@ func (s *memStorage) PersistQuery(ctx context.Context, query string, hash []byte
 
 // the description of what apifuAPI(true, _) builds, written by hand; the check compares it with the
 // real schema's introspection answers like any other description
-func apifuDesc() *desc {
+func apifuDesc(subs bool) *desc {
 	nn := func(n string) tref { return tref{n, "N"} }
 	d := &desc{Query: "Query", Directives: stdDirectives()}
 	for _, s := range []string{"ID", "Int", "String", "Boolean"} {
@@ -73,10 +92,16 @@ func apifuDesc() *desc {
 		}},
 	)
 	d.Additional = []string{"Thing"}
+	if subs {
+		d.Subscription = "Subscription"
+		d.Types = append(d.Types, typeDesc{Kind: "object", Name: "Subscription", Fields: []fieldDesc{
+			{Name: "tick", Type: tref{"Thing", ""}, Ret: "Thing"},
+			{Name: "betaTick", Type: tref{"Thing", ""}, Req: fa, Ret: "Thing"}}})
+	}
 	return d
 }
 
-func apifuAPI(gated, registerPageInfo bool, log *calls) (*apifu.API, error) {
+func apifuAPI(gated, registerPageInfo, subs bool, log *calls) (*apifu.API, error) {
 	logged := func(key string, v func(graphql.FieldContext) interface{}) func(graphql.FieldContext) (interface{}, error) {
 		return func(ctx graphql.FieldContext) (interface{}, error) {
 			log.add(key)
@@ -87,6 +112,9 @@ func apifuAPI(gated, registerPageInfo bool, log *calls) (*apifu.API, error) {
 	cfg := &apifu.Config{
 		PersistedQueryStorage: &memStorage{m: map[string]string{}},
 		Features: func(ctx context.Context) graphql.FeatureSet {
+			if box, ok := ctx.Value(featKey{}).(*featBox); ok {
+				return box.get() // whatever the environment says NOW
+			}
 			fs, _ := ctx.Value(featKey{}).(graphql.FeatureSet)
 			return fs
 		},
@@ -134,6 +162,28 @@ func apifuAPI(gated, registerPageInfo bool, log *calls) (*apifu.API, error) {
 	if registerPageInfo {
 		cfg.AddNamedType(apifu.PageInfoType)
 	}
+	if subs {
+		// a source stream of two events, then the end of the stream
+		sub := func(key string) *graphql.FieldDefinition {
+			return &graphql.FieldDefinition{Type: thingType, Resolve: func(ctx graphql.FieldContext) (interface{}, error) {
+				log.add(key)
+				if ctx.IsSubscribe {
+					ch := make(chan *thing, 2)
+					ch <- things[0]
+					ch <- things[1]
+					close(ch)
+					return &apifu.SubscriptionSourceStream{EventChannel: ch, Stop: func() {}}, nil
+				}
+				return ctx.Object, nil
+			}}
+		}
+		cfg.AddSubscription("tick", sub("Subscription.tick"))
+		if gated {
+			def := sub("Subscription.betaTick")
+			def.RequiredFeatures = graphql.NewFeatureSet("fa")
+			cfg.AddSubscription("betaTick", def)
+		}
+	}
 	return apifu.NewAPI(cfg)
 }
 
@@ -175,6 +225,14 @@ func (s *side) runHTTP(query string, vars map[string]interface{}) *observation {
 		}
 	}
 	return o
+}
+
+// over a WebSocket connection with subscriptions
+var apifuSubscriptionDocs = []string{
+	`subscription { tick { id n } }`,
+	`subscription { betaTick { id } }`,
+	`subscription { tick { __typename ... on Thing { n } ... on Node { id } } }`,
+	`subscription S { betaTick { ...T } } fragment T on Thing { id n }`,
 }
 
 var apifuDocs = []string{
